@@ -2,46 +2,54 @@
 
 // C26 harness: block import is atomic and repeatable (metamorphic check).
 //
-// input  :  hist <seed> <nops> <anc> <tix>
+// input  :  hist <seed> <nops> <anc> <tix>            random history
 //
-//	seed  : every random choice of the history derives from it (splitmix64)
-//	nops  : number of generated operations (before the closing re-reads)
-//	anc   : 1 = SetState is given a non-empty ancestry list (enables the node's ancestry tracking)
-//	tix   : 1 = blocks may carry ticket extrinsics (ticket-sealed epochs become reachable) and assurances
+//	          script <seed> <a1,a2,...> <anc> <tix>     scripted history (corpus witnesses); actions:
+//	                set<v> child child+<n> fork oldfork bad:<kind> badold:<kind> retry again get
+//
+//		seed  : every random choice of the history derives from it (splitmix64)
+//		nops  : number of generated operations (before the closing re-reads)
+//		anc   : 1 = SetState is given a non-empty ancestry list (enables the node's ancestry tracking)
+//		tix   : 1 = valid blocks may carry ticket extrinsics (ticket-sealed epochs become reachable) and assurances
 //
 // The history is generated while it is executed on node A (which sees every operation) because a
 // valid block can only be authored from the parent's posterior state: blocks are sealed through the
 // deterministic VRF stand-in with validator secrets the harness owns. The SAME operations (same block
-// bytes) are then replayed after a full reset (SetState) on
+// bytes) are then replayed after a full reset (every history starts with SetState) on
 //
 //	B1 : every import that node A refused is removed
 //	B2 : a random subset of the refused imports is removed
-//	A2 : nothing removed (two fresh nodes, same sequence)
-//	X  : (optional, `sub` tokens) B1 again in a freshly exec'ed process
+//	A2 : nothing removed (same sequence again)
+//	X  : nothing removed, generated and executed again in a freshly exec'ed process (a quarter of the cases)
 //
-// output :  A <op>=<result> ... # B1 <op>=<result> ... # B2 ... # A2 ...
+// output :  A m=- <op>=<result> ... # B1 m=<mask> <op>=<result> ... # B2 ... # A2 ... [# X ...]
 //
-//	op     : S.g<variant>.h<id>            SetState of genesis variant, header hash id
-//	         I.b<id>.h<id>.p<id>.<label>   ImportBlock of block b (header hash h, parent hash p); label = how it was made
-//	         G.h<id>                       GetState(hash)
-//	result : ok:<root8>:<dig8>             import/SetState accepted: returned state root, digest of GetState(hash) key-values
-//	                                       (":badkvroot" appended if the Merkle root recomputed from those key-values differs)
-//	         no:<kind>                     import refused with an error message (protocol error kind, sanitised) — node continues
-//	         fatal:<kind>                  "STF runtime error" (the fuzz server closes the connection)
-//	         kv:<dig8>:<root8>             GetState: digest of key-values and the Merkle root recomputed from them
-//	         none                          GetState: unknown hash
+//	mask   : one digit per operation of A, 1 = deleted in this run
+//	op     : S.g<variant>.h<id>.t<slot>.a<0|1>        SetState of a genesis variant (header hash id, slot, ancestry given)
+//	         I.b<id>.h<id>.p<id>.t<slot>.<label>      ImportBlock of block b (header hash h, parent hash p); label = how it was
+//	                                                  made (+E epoch change, +W tickets mark, +T ticket-sealed, +x tickets, +a assurances)
+//	         G.h<id>                                  GetState(hash)
+//	result : ok:<root>:<dig>             import/SetState accepted: returned state root, digest of GetState(hash) key-values
+//	                                     (":badkvroot" appended if the Merkle root recomputed from those key-values differs)
+//	         no:<kind>                   import refused with an error message (sanitised text; refused_ancestry / refused_noparent
+//	                                     for the node's own admission policy) — the node continues
+//	         fatal:<kind>                "STF runtime error" (the fuzz server closes the connection)
+//	         GOPANIC:<kind>              Go runtime panic inside the call
+//	         kv:<dig>:<root>             GetState: digest of key-values and the Merkle root recomputed from them
+//	         none                        GetState: unknown hash
 //
 // The OCaml driver replays the operations on the extracted Coq node model (Model/Node.v) whose STF is the
 // accept/reject/post-state table observed on node A, and prints the transcript the theorems prescribe.
 package main
 
 import (
-	"os/exec"
-	"runtime/debug"
 	"bytes"
 	"crypto/ed25519"
 	"fmt"
 	"os"
+	"os/exec"
+	"runtime/debug"
+	"runtime/pprof"
 	"sort"
 	"strings"
 
@@ -715,8 +723,8 @@ func runA(rng *h.Rng, nops int, anc, rich bool, st h.Stats, script []string) his
 	x := &ids{hashes: map[types.HeaderHash]int{}, blocks: map[string]int{}}
 	r := &runner{}
 	var out histResult
-	var good []*known        // accepted states of the current SetState segment, in acceptance order
-	var refused []op         // refused imports (for retries)
+	var good []*known // accepted states of the current SetState segment, in acceptance order
+	var refused []op  // refused imports (for retries)
 	var allHashes []types.HeaderHash
 	var head *known
 	// The node keeps the states of the last 24 accepted imports only (fuzzenv.FuzzPersistentRetainBlocks; pruning is
@@ -983,9 +991,9 @@ func replay(ops []op, keep []bool) []string {
 
 func gen(rng *h.Rng, tier string, emit func(string)) {
 	st := h.Stats{}
-	n := 110
+	n := 100
 	if tier == "thorough" {
-		n = 2500
+		n = 1500
 	}
 	for i := 0; i < n; i++ {
 		nops := []int{12, 25, 40, 60}[rng.Intn(4)]
@@ -1079,5 +1087,11 @@ func main() {
 	logger.ConfigureLogger("pvm", logger.LoggerConfig{Level: "FATAL", Enabled: false})
 	types.SetTinyMode()
 	initPool()
+	debug.SetGCPercent(400)
+	if pf := os.Getenv("C26_PROF"); pf != "" {
+		f, _ := os.Create(pf)
+		pprof.StartCPUProfile(f)
+		defer pprof.StopCPUProfile()
+	}
 	h.Main(gen, run)
 }
